@@ -727,7 +727,13 @@ class Mesh:
             other = [other]
         if isinstance(other, list):
             p = np.hstack((self.p,) + tuple([mesh.p for mesh in other]))
-            pT = np.ascontiguousarray(p.T)
+            origin = p.min(axis=1, keepdims=True)
+            scale = min(
+                np.linalg.norm(m.p[:, m.t[i]] - m.p[:, m.t[j]], axis=0).min()
+                for m in [self] + other
+                for i in range(m.t.shape[0]) for j in range(i)) or 1.
+            pT = np.ascontiguousarray(
+                ((p - origin) / scale).round(decimals=4).T)
             _, ixa, ixb = np.unique(pT.view([('', pT.dtype)] * pT.shape[1]),
                                     return_index=True, return_inverse=True)
             p = p[:, ixa]
